@@ -126,6 +126,11 @@ func (s *Server) setSettings(settings serverSettings) {
 	s.settingsMu.Unlock()
 	if s.loader != nil {
 		s.loader.SetLimits(settings.Limits)
+		if oldSettings.Limits != settings.Limits {
+			// include trees resolved under the previous limits are stale
+			s.loader.ClearCache()
+			s.treeEpoch.Add(1)
+		}
 	}
 	if oldSettings.CLI.Path != settings.CLI.Path || oldSettings.CLI.Timeout != settings.CLI.Timeout {
 		s.reinitCLI(settings.CLI)
